@@ -370,6 +370,7 @@ def stepBackend (st : SuiteState) (toks : List String) : SuiteState × String :=
   -- a slow engine call changes no answer: `getdelay <ms>` (the next point Get), `iterslow <ms> from=<hex>` (every Next of the
   -- iterators of one partition)
   | ["getdelay", _] => (st, "getdelay ok")
+  | ["commitdelay", _] => (st, "commitdelay ok")
   | ["iterslow", _] => (st, "iterslow ok")
   | ["list", a, b, r, lim] =>
     if st.getFault then ({ st with getFault := false }, "list err other") else
